@@ -26,6 +26,7 @@ type state struct {
 	flushed chan error
 	closed  bool
 	noAck   bool // acks=0: the broker never answers a Produce, so no answer is fabricated either
+	outage  bool // family PG env=outage0: t/0 is reported leaderless until the explored phase ends
 }
 
 func produceFaults(x *netctl.Exec, dir string, key int16, c *netctl.Conn) []string {
